@@ -4,12 +4,18 @@ Property theorems only (helper lemmas live in Lemmas/Parser*.lean).
 -/
 import VaxisModel.Model.Parser
 import VaxisModel.Spec.VT500
+import VaxisModel.Lemmas.ParserConform
+import VaxisModel.Lemmas.ParserParams
+import VaxisModel.Lemmas.Parser
 
 namespace VaxisModel.Props.C02
 open VaxisModel.Model.ParserTable VaxisModel.Model.Parser
+open VaxisModel.Lemmas.ParserConform VaxisModel.Lemmas.ParserParams VaxisModel.Lemmas.Parser
+
+/-! ## The table -/
 
 /-- The hand-written transition table of the model equals the table regenerated from
-    ansi/parser.go on this run (so `pstep = pstepGen`). -/
+    ansi/parser.go on this run. -/
 theorem hand_table_eq_gen :
     handTable.anywhere = genTable.anywhere ∧ ∀ s, handTable.fn s = genTable.fn s := by
   refine ⟨by decide, fun s => ?_⟩
@@ -19,5 +25,81 @@ theorem hand_table_eq_gen :
 theorem pstep_eq_pstepGen (s : PState) (i : Inp) : pstep s i = pstepGen s i := by
   have h := hand_table_eq_gen
   simp only [pstep, pstepGen, step, h.1, h.2]
+
+/-- **Table conformance.** For every state function of ansi/parser.go and every rune (and for the
+    end of input), the statements of the arm that `anywhere` + the state function execute — read as
+    Williams actions: exit-function calls as the exit action of the current state, flag and timer
+    bookkeeping dropped — and the returned state are exactly the exit/transition/entry actions and
+    target state that the published VT500 table with the documented extensions (Spec/VT500.lean)
+    prescribes.  All 16 states × all runes: runes ≤ 256 by kernel evaluation, the rest by the
+    interval lemma (no guard constant lies above 256). -/
+theorem table_conforms (st : StateId) (i : Inp) : implRow genTable st i = specRow st i :=
+  conforms_of_below genTable (by decide +kernel) (by decide +kernel) st i
+
+/-- The Spec table is total on 00–7F: every state has a row for every 7-bit code. -/
+theorem spec_table_total :
+    ∀ s ∈ [Spec.VT500.S.ground, .escape, .escapeIntermediate, .csiEntry, .csiParam, .csiIntermediate,
+           .csiIgnore, .dcsEntry, .dcsParam, .dcsIntermediate, .dcsPassthrough, .dcsIgnore, .oscString,
+           .sosPmApcString, .apcString, .ss3],
+      ∀ c ∈ List.range 128,
+        (Spec.VT500.findRow Spec.VT500.anywhereRows c).isSome ∨
+        (Spec.VT500.findRow (Spec.VT500.overrides s ++ Spec.VT500.williams s) c).isSome := by
+  decide +kernel
+
+/-- The constants the action bodies of the model hard-code are those of the source. -/
+theorem gen_constants :
+    Gen.ParserTable.csiParamSep = 0x3B ∧ Gen.ParserTable.csiSubSep = 0x3A ∧ Gen.ParserTable.csiBase = 10 ∧
+    Gen.ParserTable.csiDigit0 = 0x30 ∧ Gen.ParserTable.executeGuard = .range 0x00 0x1F ∧
+    Gen.ParserTable.initialState = .ground := by decide
+
+/-! ## Parameters -/
+
+/-- **Parameter decoding.** `csiDispatch`'s loop inverts the printed form of every parameter list:
+    any number of parameters, each with any positive number of `:`-separated sub-parameters, every
+    value below 2^63 (Go `int`); the empty list is the nil slice. -/
+theorem decode_encode_params (ps : List (List Nat)) (hok : ParamsOk ps) :
+    decodeParams (encParams ps) = ps.map (·.map Int.ofNat) :=
+  decodeParams_encParams ps hok
+
+example : ParamsOk [[38, 2, 0, 255, 128, 0], [1], [0], [9223372036854775807]] := by
+  intro p hp; simp at hp; rcases hp with h | h | h | h <;> subst h <;> constructor <;> simp
+
+/-! ## Round trips -/
+
+/-- **CSI round trip.** From *any* parser state whose exit function is unset (in particular ground,
+    and any half-read escape/control sequence, which is thereby cancelled), the bytes
+    `ESC [ <private>? <params> <intermediates> <final>` of a well-formed value deliver exactly one
+    item — that CSI, with its exact intermediates (private marker first), parameters, sub-parameters
+    and final — and leave the parser in ground with no collected intermediates. -/
+theorem csi_roundtrip (s : PState) (he : s.exit = none) (v : CsiVal) (hv : v.WF) :
+    run s (encodeCsi v) =
+      ({ s with state := .ground, inter := [], params := encParams v.params, ignoreST := false },
+       [.csi (v.priv.toList ++ v.inters) (v.params.map (·.map Int.ofNat)) v.final]) := by
+  obtain ⟨hp, hps, hi, hf1, hf2⟩ := hv
+  have hpb := encParams_bytes v.params
+  unfold encodeCsi
+  simp only [run, pstep_esc s he]
+  rw [escape_csi _ rfl]
+  simp only [List.nil_append]
+  cases hpriv : v.priv with
+  | none =>
+    simp only [Option.toList, List.nil_append]
+    rw [csi_tail _ (Or.inl rfl) _ _ _ hpb hi hf1 hf2]
+    simp [decodeParams_encParams v.params hps]
+  | some p =>
+    have hp' := hp p (by simp [hpriv])
+    simp only [Option.toList, List.cons_append, List.nil_append, run]
+    rw [csi_private _ rfl p hp'.1 hp'.2]
+    simp only []
+    rw [csi_tail _ (Or.inr rfl) _ _ _ hpb hi hf1 hf2]
+    simp [decodeParams_encParams v.params hps]
+
+-- non-vacuity: SGR with colon sub-parameters, a private mode set, a sequence with intermediates
+example : (⟨none, [[38, 2, 0, 255, 128, 0], [1]], [], 0x6D⟩ : CsiVal).WF := by
+  refine ⟨by simp, ?_, by simp, by decide, by decide⟩
+  intro p hp; simp at hp; rcases hp with h | h <;> subst h <;> constructor <;> simp
+example : (⟨some 0x3F, [[2026]], [0x24], 0x70⟩ : CsiVal).WF := by
+  refine ⟨by simp, ?_, by simp, by decide, by decide⟩
+  intro p hp; simp at hp; subst hp; constructor <;> simp
 
 end VaxisModel.Props.C02
